@@ -16,6 +16,7 @@ def suites : List (String × Suite) := [
   ("c15", Tally.Drv.C15.suite),
   ("c17", Tally.Drv.C17.suite),
   ("c14", Tally.Drv.C14.suite),
+  ("rootclose", Tally.Drv.RootClose.suite),
   ("m3", Tally.Drv.M3.suite)
 ]
 
